@@ -33,10 +33,13 @@ def forests() -> list[tuple[list[Any], list[list[tuple]]]]:
         ([R("LTwoSeq", body=(L(1), L(2)), orelse=[L(3), R("LOpt", one=L(4)), L(5)]), L(6)], [[[], [("body", 0)], [("body", 1)], [("orelse", 1)], [("orelse", 2)]], [[]]]),
         # nodes that are falsy in a boolean context (used by the `falsy-nodes` families only)
         ([R("LTup", items=(R("LFalsy", {"v": 1}), R("LOpt", one=R("LFalsy", {"v": 2})))), R("LFalsy", {"v": 3}), L(4)], [[[], [("items", 0)], [("items", 1)], [("items", 1), ("one", None)]], [[]], [[]]]),
+        # content-equal branches (f(x); f(x)): twins of inner nodes, in one tree and in a second root (used by the `twin-branches` families only)
+        ([R("LTup", items=(R("LReq", child=L(1)), R("LReq", child=L(1)), R("LOpt", one=R("LReq", child=L(1))))), R("LReq", child=L(1))], [[[], [("items", 0)], [("items", 0), ("child", None)], [("items", 1)], [("items", 2), ("one", None)]], [[]]]),
     ]
 
 
 FALSY_FOREST = 5
+TWIN_FOREST = 6
 GUIDED_FORESTS = 4  # the guided families run on the first four forests
 
 
@@ -221,6 +224,16 @@ def check_invariant(handles: list[Any]) -> tuple[str, dict[str, Any]] | None:
                     return "is_ancestor-disagrees-with-structure", {"node": type(m).__name__}
             if chain and m.is_ancestor(chain[0]):
                 return "is_ancestor-disagrees-with-structure", {"node": type(m).__name__, "claims_to_be_ancestor_of": "root"}
+            # relative depth to every real ancestor, and twins of ancestors (content-equal attached
+            # nodes that are NOT on the chain) are no ancestors
+            for d_, a in enumerate(reversed(chain), start=1):
+                if m.get_depth(relative_to=a) != d_:
+                    return "get_depth-disagrees-with-structure", {"node": type(m).__name__, "relative_to": type(a).__name__, "got": m.get_depth(relative_to=a), "expected": d_}
+            if chain:
+                cids = {a.content_id for a in chain}
+                for t_ in attached.values():
+                    if t_.content_id in cids and all(t_ is not a for a in chain) and t_ is not m and t_.is_ancestor(m):
+                        return "is_ancestor-disagrees-with-structure", {"node": type(m).__name__, "claimed_by": f"a content-equal twin of an ancestor ({type(t_).__name__})"}
             if ok_x is not True or m.xpath != xp:
                 return "calculated-xpath-disagrees-with-structure", {"node": type(m).__name__, "got": m.xpath, "expected": xp}
             for c, fname, idx in _kids(m):
